@@ -204,6 +204,7 @@ def run(ctx: Any, prog: Program) -> None:
     m2_vmt(ctx, prog)
     m2_particles(ctx, prog)
     m2_smd(ctx, prog)
+    m2_curve_edges(ctx, prog)
     m5_tables(ctx, prog)
 
 
@@ -1221,6 +1222,23 @@ def quoted_slot_lint(ctx: Any, mod: Any, quals: Sequence[str], escapers: Sequenc
     return n
 
 
+def m2_curve_edges(ctx: Any, prog: Program) -> None:
+    """Curve.export_text writes `leftedge ...` and `rightedge ...` one after the other when both edges are active; parse_text has to test for
+    each keyword on its own - as an if/elif pair the second keyword is never looked for once the first was found."""
+    mod = prog.module('choreo')
+    pt = mod.func('Curve.parse_text')
+    ifs = [i for i in ast.walk(pt) if isinstance(i, ast.If)]
+    def _kw(i: ast.If, word: str) -> bool:
+        return any(isinstance(c, ast.Constant) and c.value == word for c in ast.walk(i.test))
+    left = [i for i in ifs if _kw(i, 'leftedge')]
+    right = [i for i in ifs if _kw(i, 'rightedge')]
+    ctx.shape('C20.M2', len(left) == 1 and len(right) == 1, mod, pt, 'the tests for the `leftedge` and `rightedge` keywords were not found once each in Curve.parse_text', func='Curve.parse_text', text='ramp edge keywords')
+    if len(left) == 1 and len(right) == 1:
+        nested = any(right[0] is x for st in left[0].orelse for x in ast.walk(st))
+        ctx.check('C20.M2', not nested, mod, right[0], 'Curve.parse_text looks for `rightedge` only when it has not just read `leftedge` (an elif): export_text writes both keywords when both edges are active, so the reader '
+                  'meets `rightedge` where it expects the opening brace and refuses the writer\'s own output', func='Curve.parse_text', text='ramp edge keywords are tested independently')
+
+
 # ---- M2 sndscript -----------------------------------------------------------------------------------------------------------------------
 def m2_sndscript(ctx: Any, prog: Program) -> None:
     mod = prog.module('sndscript')
@@ -1297,6 +1315,15 @@ def m2_sndscript(ctx: Any, prog: Program) -> None:
     read = set(re.findall(r"'([a-z_0-9]+)'", psrc)) | {'wave', 'rndwave'}
     for kw in sorted(written):
         ctx.check('C20.M2', kw in read, mod, exp, f'Sound.export writes key `{kw}` that Sound.parse_one never reads', func='Sound.export', text=f'sndscript key {kw}')
+    # ... and the other way round for the operator stacks: parse_one finds each stack under a fixed block name, so export() writes that name
+    # literally - the Keyvalues object holding the stack has whatever name its creator gave it ('' for a lazily created one)
+    stack_names = sorted({e.value for l_ in ast.walk(par) if isinstance(l_, (ast.List, ast.Tuple)) and len(l_.elts) >= 2 and all(isinstance(e, ast.Constant) and isinstance(e.value, str) and e.value.endswith('_stack') for e in l_.elts)
+                          for e in l_.elts})
+    ctx.shape('C20.M2', len(stack_names) == 3, mod, par, f'the three operator stack block names read by Sound.parse_one were not found ({stack_names})', func='Sound.parse_one', text='sndscript stack block names')
+    wlits = ' '.join(c.value for c in ast.walk(exp) if isinstance(c, ast.Constant) and isinstance(c.value, str))
+    for sn_ in stack_names:
+        ctx.check('C20.M2', sn_ in wlits, mod, exp, f'Sound.parse_one looks for the operator stack block `{sn_}`, but Sound.export never writes that name: the block is written under the name of the Keyvalues object '
+                  '(blank for a stack created on demand), so the operators are not found again when the script is parsed', func='Sound.export', text=f'sndscript stack block {sn_} written literally')
     ok = 'CHAN_' in psrc and "Channel(channel_str)" in psrc
     ctx.shape('C20.M2', ok, mod, par, 'channel constants are parsed by Channel(value)', func='Sound.parse_one', text='sndscript channel parse')
     ch = mod.cls('Channel')
@@ -1727,6 +1754,7 @@ def m5_tables(ctx: Any, prog: Program) -> None:
 
 
 MUTANTS: List[Dict[str, Any]] = [
+    {'id': 'curve_edges_read_with_elif', 'file': 'choreo.py', 'find': "        if tok is Token.STRING and tok_val == \"rightedge\":", 'replace': "        elif tok is Token.STRING and tok_val == \"rightedge\":", 'extra': [{'file': 'choreo.py', 'find': "        else:\n            left = CurveEdge(False)\n", 'replace': ""}], 'expect': 'C20.M2', 'refuse_ok': True, 'note': 'round 13'},
     {'id': 'smd_links_capped', 'file': 'smd.py', 'find': "                        for bone, weight in vert.links:\n", 'replace': "                        for bone, weight in sorted(vert.links, key=itemgetter(1))[:3]:\n", 'expect': 'C20.M2', 'note': 'round 12'},
     {'id': 'scene_sounds_written_sorted', 'file': 'choreo.py', 'find': "        for sound in entry.sounds:\n            file.write(struct.pack('<i', add_to_pool(sound)))", 'replace': "        for sound_ind in sorted(add_to_pool(sound) for sound in entry.sounds):\n            file.write(struct.pack('<i', sound_ind))", 'expect': 'C20.M1', 'note': 'round 12'},
     {'id': 'cmdseq_skips_disabled_commands', 'file': 'cmdseq.py', 'find': "    for name, commands in sequences.items():\n        file.write(pad_string(name, 128))", 'replace': "    for name, commands in sequences.items():\n        commands = list(filter(None, commands))\n        file.write(pad_string(name, 128))", 'expect': 'C20.M1', 'note': 'round 11'},
